@@ -14,7 +14,7 @@ func init() {
 		"Static conformance of the scope mechanism: (a) the default scope constant each top-level parser passes to the scope-modifier parser equals the README default and its result is what is stored in the statement's Scope; (b) the scope-modifier parser returns the default without '(' and otherwise the type of the GLOBAL/LOCAL token it tested; (c) every label-definition site of the emitter writes the '::' form exactly under the statement's scope flag and the ':' form otherwise, printing the statement's own name; (d) every other label-definition format has no '::' variant and every node the compiler invents is built with a local scope constant. Decides the structural clauses only; it does not run the compiler.",
 		[]string{"oracle (README): script/text/mapscripts default global; movement/mart default local; labels in scripts local unless (global)",
 			"go/ssa lowering is faithful to the source"},
-		"C15.a", "C15.b", "C15.c", "C15.d", "C19.d")
+		"C15.a", "C15.b", "C15.c", "C15.d", "C19.d", "C10.f", "C06.e")
 
 	register(&Rule{ID: "C15.a", Doc: "default scope per statement kind equals the documented default and is stored in Scope", Floor: 5, Run: c15a})
 	register(&Rule{ID: "C15.b", Doc: "parseScopeModifier returns default without '(' else the tested GLOBAL/LOCAL token type", Floor: 2, Run: c15b})
@@ -301,7 +301,16 @@ func c15cChain(c *Ctx) {
 				return
 			}
 			nStores++
-			_, fresh := rootValue(st.Addr).(*ssa.Alloc)
+			ra, fresh := rootValue(st.Addr).(*ssa.Alloc)
+			if fresh && ra.Comment != "complit" && ra.Comment != "new" {
+				// a local that holds a copy of an existing node (a range variable, `m := *stmt`):
+				// under construction only if nothing was copied into it whole
+				for _, r := range *ra.Referrers() {
+					if w, ok := r.(*ssa.Store); ok && w.Addr == ssa.Value(ra) {
+						fresh = false
+					}
+				}
+			}
 			c.Check(fresh, fmt.Sprintf("%s/scope-store[%s.%s]#%d", c.W.FuncKey(f), n.Obj().Name(), fld, nStores), c.W.Pos(st.Pos()), "the scope is stored into a node under construction", f.Name()+" changes the "+fld+" of an existing "+n.Obj().Name()+": the scope written in the source (or the documented default) would be overridden after parsing")
 		})
 	}
